@@ -385,6 +385,133 @@ pub fn c08_stream_host_wake() {
     dispatch!(v, stream_host_case, 0 1 2 3 4);
 }
 
+/// A host that reacts to its notification AT ONCE: the thread that owns the hosted command (the core's
+/// executor thread, or whichever thread is inside `Core::process`) is taken to run the moment the
+/// host's waker fires — i.e. *inside* the notifying call of the shell's thread, before that call has
+/// finished whatever it still has to do.  This is the interleaving "the notified thread is faster than
+/// the notifier"; it needs no schedule point in crux, the host's waker is the harness's own code.
+pub struct ReactiveHost {
+    pub wakes: AtomicU8,
+    pub react: AtomicU8,
+    pub outputs: AtomicU8,
+    pub ended: AtomicU8,
+    pub tag: u8,
+    pub cmd: std::cell::UnsafeCell<*mut Cmd>,
+}
+unsafe impl Send for ReactiveHost {}
+unsafe impl Sync for ReactiveHost {}
+
+impl ReactiveHost {
+    /// what the hosting thread does when it runs: poll the stream until it is pending or ends
+    fn drive(self: &Arc<Self>) {
+        use futures::Stream;
+        let cmd = unsafe { &mut **self.cmd.get() };
+        let w: Waker = self.clone().into();
+        let mut cx = Context::from_waker(&w);
+        let mut i = 0u8;
+        while i < 3 {
+            match Pin::new(&mut *cmd).poll_next(&mut cx) {
+                Poll::Ready(Some(crux_core::command::CommandOutput::Effect(e))) => {
+                    assert!(e == self.tag, "payload unchanged");
+                    let n = self.outputs.load(Ordering::SeqCst);
+                    self.outputs.store(n + 1, Ordering::SeqCst);
+                }
+                Poll::Ready(Some(_)) => panic!("unexpected output"),
+                Poll::Ready(None) => {
+                    self.ended.store(1, Ordering::SeqCst);
+                    break;
+                }
+                Poll::Pending => break,
+            }
+            i += 1;
+        }
+        std::mem::forget(w);
+    }
+}
+
+impl Wake for ReactiveHost {
+    fn wake(self: Arc<Self>) {
+        self.wake_by_ref();
+        std::mem::forget(self);
+    }
+    fn wake_by_ref(self: &Arc<Self>) {
+        let n = self.wakes.load(Ordering::SeqCst);
+        self.wakes.store(n.saturating_add(1), Ordering::SeqCst);
+        if self.react.load(Ordering::SeqCst) == 1 {
+            // the notified thread runs right now, and this notification is thereby consumed
+            self.wakes.store(0, Ordering::SeqCst);
+            self.drive();
+        }
+    }
+}
+
+/// The shell's thread wakes a parked task of a hosted command (HOW: 0 by value, 1 by reference then
+/// release); the host thread reacts to its notification at once (see `ReactiveHost`).  When the
+/// shell's call has returned, the host acts on any notification it has not yet acted on, and then
+/// everything the wake-up made possible must have happened: the task ran again and its output was
+/// handed to the host exactly once — a wake-up whose notification fires before the work is visible
+/// to the notified thread is lost for good.  SECOND: 0 the task finishes, 1 it emits and parks again.
+fn host_reacts_case<const HOW: u8, const SECOND: u8>() {
+    disarm();
+    let p = Arc::new(Probe::default());
+    let slot = Slot::new();
+    let tag = nd::any_u8();
+    let park = Step { keep_slot: true, ..Step::pending() };
+    let finish = Step { effect: true, ready: true, ..Step::pending() };
+    let again = Step { effect: true, keep_slot: true, ..Step::pending() };
+    let mut cmd: Cmd = command_with([park, if SECOND == 0 { finish } else { again }, finish], &p, &slot, tag);
+    let host = Arc::new(ReactiveHost {
+        wakes: AtomicU8::new(0),
+        react: AtomicU8::new(0),
+        outputs: AtomicU8::new(0),
+        ended: AtomicU8::new(0),
+        tag,
+        cmd: std::cell::UnsafeCell::new(&mut cmd as *mut Cmd),
+    });
+    host.drive();
+    assert!(p.polls() == 1 && host.outputs.load(Ordering::SeqCst) == 0 && host.ended.load(Ordering::SeqCst) == 0, "parked, host told Pending");
+
+    let rounds = if SECOND == 0 { 1 } else { 2 };
+    let mut r = 0u8;
+    while r < rounds {
+        host.react.store(1, Ordering::SeqCst);
+        let w = slot.take().expect("parked waker");
+        if HOW == 0 {
+            w.wake(); // the shell's thread
+        } else {
+            w.wake_by_ref();
+            drop(w);
+        }
+        host.react.store(0, Ordering::SeqCst);
+        // both calls have returned; a notification not yet acted on is acted on now
+        if host.wakes.load(Ordering::SeqCst) > 0 {
+            host.wakes.store(0, Ordering::SeqCst);
+            host.drive();
+        }
+        assert!(p.polls() == 2 + r, "the woken task ran again before the host went idle");
+        assert!(host.outputs.load(Ordering::SeqCst) == 1 + r, "its output was handed to the host exactly once");
+        r += 1;
+    }
+    assert!(p.dropped() && host.ended.load(Ordering::SeqCst) == 1, "finished: the stream ended for the host");
+    assert!(hooks::ready_len(&cmd) == 0 && hooks::live_tasks(&cmd) == 0, "quiescent");
+    nd_cover!(HOW == 0, "woken by value, host reacts inside the call");
+    nd_cover!(HOW == 1, "woken by reference, host reacts inside the call");
+    nd_cover!(SECOND == 1, "two rounds: the task parks again in between");
+    std::mem::forget((cmd, p, slot, host));
+}
+
+#[cfg_attr(kani, kani::proof, kani::unwind(6))]
+#[cfg_attr(kani, kani::stub(core::mem::MaybeUninit::write, crate::common::maybe_uninit_write))]
+pub fn c08_host_reacts_at_once() {
+    let v = nd::any_u8();
+    match v {
+        0 => host_reacts_case::<0, 0>(),
+        1 => host_reacts_case::<1, 0>(),
+        2 => host_reacts_case::<0, 1>(),
+        _ => nd::assume(false),
+    }
+}
+
 /// A task of the legacy capability executor: poll k: bit (2k) = wake self by reference,
 /// bit (2k+1) = Ready; a pending poll parks its waker in the slot.
 pub struct Parker {
